@@ -817,6 +817,7 @@ def bypassClass : List ((String × String) × BypassClass) := [
   (("mod.rs", "read_alias_name_action_pairs"), .aliasName),
   (("mod.rs", "set_layer_change_lsp_hint"), .lspOnly),
   (("fake_key.rs", "set_virtual_key_reference_lsp_hint"), .lspOnly),
+  (("deftemplate.rs", "count_nodes"), .templateEngine),   -- size accounting of the expansion limit
   (("deftemplate.rs", "evaluate_conditionals"), .templateEngine),
   (("deftemplate.rs", "expand"), .templateEngine),
   (("deftemplate.rs", "expand_templates"), .templateEngine),
